@@ -17,6 +17,7 @@ ProcOK(cfg, pr, r) ==
   LET T == Bake(pr.T, "") IN
   IF r.panic THEN "panic:" \o r.where
   ELSE IF r.state # "done" THEN "goroutine-never-finished"
+  ELSE IF pr.op = "corrupt" THEN "ok"                 \* a truncated input: value or error (C04); it is here for what it leaves behind
   ELSE IF r.err # "" THEN "error-under-concurrency"
   ELSE CASE pr.op = "marshal" -> IF EncMatches(cfg, T, pr.v, r.bytes) THEN "ok" ELSE "bytes-differ-from-sequential"
          [] pr.op = "unmarshal" -> IF Eq(T, r.back, Norm(cfg, T, pr.v, TRUE)) THEN "ok" ELSE "value-differs-from-sequential@" \o Diff(T, r.back, Norm(cfg, T, pr.v, TRUE))
